@@ -3,7 +3,9 @@ package main
 import (
 	"bytes"
 	"context"
+	"fmt"
 	"io"
+	"io/fs"
 	"os"
 	"path/filepath"
 	"strings"
@@ -41,6 +43,7 @@ type Case struct {
 	Stray    string    `json:"stray_option,omitempty"`       // an output-encoding option given to mkdir / verify / walk, where it must not matter
 	Busy     bool      `json:"busy_elsewhere,omitempty"`     // the consumer of the iterator builds another tree between two items
 	Chunk    int       `json:"reader_chunk,omitempty"`       // the reader delivers at most this many bytes per Read (0: no limit)
+	CbErr    string    `json:"callback_error,omitempty"`     // which error the failing callback returns: "" (a private one), skipdir, skipall, eof, wrapped-skipdir
 	RawTgt   bool      `json:"raw_target,omitempty"`         // the target directory is handed over as spelled (trailing slash, ./, x/../x …), not cleaned
 }
 
@@ -54,6 +57,45 @@ func (c Case) targetIn(jail string) string {
 		return jail + "/" + c.Target
 	}
 	return filepath.Join(jail, c.Target)
+}
+
+// cbError: the error a failing callback returns – whatever it is, the walk ends and returns it unchanged
+func cbError(c Case) error {
+	switch c.CbErr {
+	case "skipdir":
+		return fs.SkipDir
+	case "skipall":
+		return fs.SkipAll
+	case "eof":
+		return io.EOF
+	case "wrapped-skipdir":
+		return fmt.Errorf("stop here: %w", fs.SkipDir)
+	case "canceled":
+		return context.Canceled
+	}
+	return errCallback
+}
+
+// classifyCb: the callback's own error, whatever value it is, counts as "callback" when it comes back unchanged
+func classifyCb(c Case, err error) string {
+	if c.CbErr != "" && c.FailAt >= 0 && err != nil && err.Error() == cbError(c).Error() {
+		return "callback"
+	}
+	if c.CbErr != "" && c.FailAt >= 0 && err == nil {
+		return "nil"
+	}
+	return classify(err)
+}
+
+// sameCbError: the walk returned exactly the error the callback returned
+func sameCbError(c Case, err error, realv string) []Diff {
+	if c.CbErr == "" || c.FailAt < 0 {
+		return nil
+	}
+	if err == nil || err.Error() != cbError(c).Error() {
+		return []Diff{{What: "the callback's error (" + c.CbErr + ") is not what the walk returned", Real: fmt.Sprint(err) + " " + realv, Model: cbError(c).Error()}}
+	}
+	return nil
 }
 
 // reenter: what a callback may do while a walk is in progress – use the library on other data
@@ -158,7 +200,11 @@ func runCaseR(m *Model, c Case) ([]Diff, string) {
 		return cmp("output", realv, modelv), realv
 	case "outf":
 		var buf bytes.Buffer
-		err := gtree.OutputFromMarkdown(&buf, c.reader(), encodeOpt(c.Format))
+		fo := []gtree.Option{encodeOpt(c.Format)}
+		if c.Mode == "batch" {
+			fo = append(fo, gtree.WithNoUseIterOfSimpleOutput())
+		}
+		err := gtree.OutputFromMarkdown(&buf, c.reader(), fo...)
 		nodes, derr := decodeFormatted(c.Format, buf.Bytes())
 		realv := "f=" + showFNodes(nodes) + " e=" + classify(err)
 		if derr != nil {
@@ -195,7 +241,7 @@ func runCaseR(m *Model, c Case) ([]Diff, string) {
 				reenter()
 			}
 			if c.FailAt >= 0 && k-1 == c.FailAt {
-				return errCallback
+				return cbError(c)
 			}
 			return nil
 		}
@@ -205,7 +251,7 @@ func runCaseR(m *Model, c Case) ([]Diff, string) {
 		} else {
 			err = gtree.WalkFromMarkdown(c.reader(), cb, append(fmtOpts(c.Fmt), strayOpts(c)...)...)
 		}
-		realv := "v=" + showVisits(vs) + " e=" + classify(err)
+		realv := "v=" + showVisits(vs) + " e=" + classifyCb(c, err)
 		if err == nil && len(c.Texts) > 0 {
 			// direct evaluation of C02's "no silent loss" on the real code
 			have := map[string]bool{}
@@ -243,7 +289,7 @@ func runCaseR(m *Model, c Case) ([]Diff, string) {
 				reenter()
 			}
 			if c.FailAt >= 0 && k-1 == c.FailAt {
-				return errCallback
+				return cbError(c)
 			}
 			return nil
 		}
@@ -254,13 +300,13 @@ func runCaseR(m *Model, c Case) ([]Diff, string) {
 		} else {
 			err = gtree.WalkFromRoot(root, cb, append(fmtOpts(c.Fmt), strayOpts(c)...)...)
 		}
-		realv := "v=" + showVisits(vs) + " e=" + classify(err)
+		realv := "v=" + showVisits(vs) + " e=" + classifyCb(c, err)
 		modelv := m.Ask("rootwalk " + c.Fmt.enc() + " " + optN(c.FailAt) + " " + addMirror(t).Enc())
 		d := cmp("walk-root", realv, modelv)
 		// walking the same root again visits the same rendered tree (node facts are rebuilt, not appended to)
 		vs, k = nil, 0
 		err2 := gtree.WalkFromRoot(root, cb, append(fmtOpts(c.Fmt), strayOpts(c)...)...)
-		d = append(d, cmp("walk-root (second walk of the same root)", "v="+showVisits(vs)+" e="+classify(err2), modelv)...)
+		d = append(d, cmp("walk-root (second walk of the same root)", "v="+showVisits(vs)+" e="+classifyCb(c, err2), modelv)...)
 		return d, realv
 	case "rootiter":
 		t := parseTreeEnc(c.Tree)
